@@ -13,6 +13,40 @@ import (
 //go:embed replay_scanner_test.go.tmpl
 var replayScannerSrc string
 
+//go:embed replay_repeat_test.go.tmpl
+var replayRepeatSrc string
+
+// replayRepeat: C16 - run the real accessors in every history of length 3 over built-in documents and the positive
+// documents of /repo/testdata (injected test in package kit) and report a document on which a method's bytes change.
+func replayRepeat(eng *Engine) string {
+	tmp, err := os.MkdirTemp("", "govcreplay")
+	if err != nil {
+		return ""
+	}
+	defer os.RemoveAll(tmp)
+	testFile := filepath.Join(tmp, "zz_govc_repeat_test.go")
+	_ = os.WriteFile(testFile, []byte(replayRepeatSrc), 0o644)
+	ov := map[string]map[string]string{"Replace": {filepath.Join(eng.repo, "kit", "zz_govc_repeat_test.go"): testFile}}
+	ovb, _ := json.Marshal(ov)
+	ovFile := filepath.Join(tmp, "overlay.json")
+	_ = os.WriteFile(ovFile, ovb, 0o644)
+	cmd := exec.Command("go", "test", "-overlay", ovFile, "-vet=off", "-count=1", "-timeout", "300s", "-v", "-run", "TestGovcRepeatReplay", "./kit")
+	cmd.Dir = eng.repo
+	cmd.Env = append(os.Environ(), "GOFLAGS=-mod=mod", "GOPROXY=off", "GOSUMDB=off", "GOTOOLCHAIN=local",
+		"GOVC_REPO_TESTDATA="+filepath.Join(eng.repo, "testdata"))
+	outB, _ := cmd.CombinedOutput()
+	var keep []string
+	for _, l := range strings.Split(string(outB), "\n") {
+		if strings.HasPrefix(l, "GOVC ") {
+			keep = append(keep, l[5:])
+		}
+	}
+	if len(keep) == 0 {
+		return "replay harness produced no result:\n" + string(outB)
+	}
+	return "call histories on the real accessors (package kit):\n" + strings.Join(keep, "\n") + "\n"
+}
+
 // replayModel turns a failed obligation of a scanner function into a search, on the REAL scanner, for an input that
 // observably violates the statement of C12/C13 (or panics): the state graph of the real scanner is explored breadth
 // first in an injected in-package test (`go test -overlay`, nothing is written to /repo) to find an input prefix that
